@@ -7,6 +7,7 @@ import GE.Model.ExprSExp
 import GE.Model.SubExpr
 import GE.Model.TagGen
 import GE.Model.Group
+import GE.Model.PathAnalysis
 /-!
 Model driver: one request per line (`op TAB field…`), one answer line per request.
 Unknown ops answer `bad-op` (never defaulted).
@@ -91,7 +92,9 @@ def step (fs : List String) : String :=
       let sc := parseScopes scopes
       if !GE.Gen.scopesInRange sc.length e then "PANIC" else
       let o := GE.Gen.prepare sc e
+      let a := GE.PA.prepareAnalysis sc e
       esc (GE.Gen.spellStmts o.stmts) ++ "\t" ++ esc (GE.Gen.spellAll o.toks) ++ "\t" ++ toString (GE.Gen.aboveCond e)
+        ++ "\t" ++ esc (GE.PA.stateExpr sc false a.pas a.pc) ++ "\t" ++ esc (GE.PA.stateExpr sc true a.pas a.pc)
   | _ => "bad-op"
 
 partial def loop (h : IO.FS.Stream) (out : IO.FS.Stream) : IO Unit := do
